@@ -176,7 +176,7 @@ func (c13) RunFn() string { return "run_C13" }
 func (c13) Workers() int  { return 32 }
 func (c13) Journal() bool { return true }
 func (c13) Rule() string {
-	return "fault sequences of up to 4 rounds on successive connections of a real StreamManager+Client: abrupt drop, graceful </stream:stream> or <stream:error><system-shutdown/></stream:error></stream:stream> by the server, listener down for 0-120 ms (refused attempts), keepalive interval the default or 3-10 ms (shorter than the outage), 0-2 negotiation failures (transient: unexpected reply to <auth/>, with a clean stream close or with the connection cut, or the connection cut after the server's stream header / after the client's <starttls/>; or the server ending the stream itself (stream error / closing tag) in place of its first features or of <proceed/>, or the connection ending inside the TLS handshake: before the server's first record, inside its header, inside its payload, right after it; permanent: SASL <failure/> with the server waiting for the client's closing tag or hanging up at once (reset / orderly), or - TLS mandatory - the handshake after <proceed/> refused by the server with an alert (TLS 1.3 only against an application pinning TLS 1.2; client certificate demanded) or by the client (certificate for another name, from an unknown authority, expired)), or a PostResumeHook of the application that fails after a successful negotiation, then a successful attempt on which the server grants or refuses a resumption (stream management) or that binds afresh; on every established session a stanza from the server must reach a handler and a stanza sent afterwards must arrive on that session's connection; the stream error also with <conflict/>; finally Stop, or Stop in the middle of an outage (then the server accepts again and must see nobody), or Stop during the first negotiation; also first-connection failures; cleartext or mandatory STARTTLS; TCP or WebSocket transport; distinct = fault sequence; non-trivial = at least one loss followed by a new session"
+	return "fault sequences of up to 4 rounds on successive connections of a real StreamManager+Client: abrupt drop, graceful </stream:stream> or <stream:error><system-shutdown/></stream:error></stream:stream> by the server, listener down for 0-120 ms (refused attempts), keepalive interval the default or 3-10 ms (shorter than the outage), 0-2 negotiation failures (transient: unexpected reply to <auth/>, with a clean stream close or with the connection cut, or the connection cut after the server's stream header / after the client's <starttls/>, or cut at each later step of the negotiation: before the server's header, after <auth/>, after <success/>, when the <resume/> (or bind) request has been read and before any answer, in the middle of that answer - the state held is then presented again on the next attempt (<resume previd=the same id/>, observed on the server) - or after the answer <failed/> (the state is refused: the next session is bound afresh); or the server ending the stream itself (stream error / closing tag) in place of its first features or of <proceed/>, or the connection ending inside the TLS handshake: before the server's first record, inside its header, inside its payload, right after it; permanent: SASL <failure/> with the server waiting for the client's closing tag or hanging up at once (reset / orderly), or - TLS mandatory - the handshake after <proceed/> refused by the server with an alert (TLS 1.3 only against an application pinning TLS 1.2; client certificate demanded) or by the client (certificate for another name, from an unknown authority, expired)), or a PostResumeHook of the application that fails after a successful negotiation, then a successful attempt on which the server grants or refuses a resumption (stream management) or that binds afresh; on every established session a stanza from the server must reach a handler and a stanza sent afterwards must arrive on that session's connection; the stream error also with <conflict/>; finally Stop, or Stop in the middle of an outage (then the server accepts again and must see nobody), or Stop during the first negotiation; also first-connection failures; cleartext or mandatory STARTTLS; TCP or WebSocket transport; distinct = fault sequence; non-trivial = at least one loss followed by a new session"
 }
 func (c13) Decode(raw json.RawMessage) (interface{}, error) {
 	var in c13In
